@@ -962,6 +962,7 @@ func (c *ExecCtx) havocRec(st *State, rec *recorder) {
 				seen[r.String()] = true
 				nh = Store(nh, r, u.fresh("hho_"+h, vs))
 			}
+			u.immutKeep(st, h, cur, nh)
 			st.heaps[h] = nh
 			continue
 		}
@@ -994,12 +995,15 @@ func (c *ExecCtx) havocRec(st *State, rec *recorder) {
 						cond = append(cond, Ne(x, r))
 					}
 					st.assumeT(Forall([]*Term{x}, Imp(And(cond...), Eq(Select(nh, x), Select(cur, x))), []*Term{Select(nh, x)}))
+					u.immutKeep(st, h, cur, nh)
 					st.heaps[h] = nh
 					continue
 				}
 			}
 		}
-		st.heaps[h] = u.fresh("hh_"+h, cur.Sort)
+		nhh := u.fresh("hh_"+h, cur.Sort)
+		u.immutKeep(st, h, cur, nhh)
+		st.heaps[h] = nhh
 	}
 	for g := range rec.ghost {
 		if cur, ok := st.ghost[g]; ok {
